@@ -35,7 +35,9 @@ opportunity; the theorems quantify over all oracles) subject to the look-ahead b
 `pulled − handed ≤ capacity + 3` of `fifo_stream` proved as `Fifo.C08_fifo_lookahead` (with
 `capacity = 2·concurrency`, `Fifo.C08_parmap_lookahead`) and, for `Buffer`, worker-in-hand (1) +
 queue (`maxsize`) + consumer-in-hand (1); the concurrency inside these two operators is the
-business of C01/C05/C08, not of this model.
+business of C01/C05/C08, not of this model.  (The real `parmap` also *applies* `f` ahead of demand,
+in its pool; the model applies it when the consumer takes the element — functions are pure here, so
+the only observable effect of running ahead is the pull counter.)
 
 `groupby(key)` is modelled together with the materialising `map` that the documentation prescribes
 right after it (`.groupby(key).map(lambda kv: (kv[0], list(kv[1])))`): the pair is again a
@@ -506,6 +508,30 @@ def build (ops : List Op) : List Stage := (ops.map Stage.init).reverse
 
 def World.init (vals : List Val) (err : Option Err) (orc : List Bool) : World :=
   { src := { rest := vals, err := err }, orc := orc }
+
+/-! ## one-to-one operators and their look-ahead constants (used by `C03_incremental` and the driver) -/
+
+/-- operators that hand on one answer per answer taken -/
+def Op.oneOne : Op → Bool
+  | .map _ => true
+  | .peek => true
+  | .accumulate _ _ => true
+  | .head _ => true
+  | .buffer _ => true
+  | .parmap _ _ _ _ => true
+  | _ => false
+
+def Op.isHead : Op → Bool
+  | .head _ => true
+  | _ => false
+
+/-- per-operator look-ahead constant: `map`/`peek`/`accumulate` 0, `head` 1, `buffer n` n+2,
+    `parmap` 2·concurrency+3 (the last two imported, see `lookahead`) -/
+def slack (op : Op) : Nat := if op.isHead then 1 else lookahead op
+
+def slackAll : List Op → Nat
+  | [] => 0
+  | op :: ops => slack op + slackAll ops
 
 /-- Iterating the same `Stream` object again: `Stream.__iter__` calls `__iter__` of the last
     streamlet, which starts a new generator; every generator keeps its state in locals
